@@ -21,6 +21,7 @@ func init() {
 			c.run("C01-R5", "GUARD-DOM: negotiated protocol is the minimum of both ends", func(c *Ctx) { c14R3(c) })
 			c.run("C01-S1", "shared with C02: digest compare and saved==size gates dominate success", func(c *Ctx) { c02Digest(c); c02SavedSize(c); c02OneStream(c) })
 			c.run("C01-S2", "shared with C07-R5: the names shown are the names written", c07R5)
+			c.run("C01-S3", "shared with C08-R1/R2: a resumed file is cut at the offset both ends proved equal", func(c *Ctx) { c08R1(c); c08R2(c) })
 		})
 }
 
